@@ -192,10 +192,15 @@ async fn scenario_generic<C: Config>(
         xplore::exploring(true);
         let (eng3, sh3) = (eng.clone(), sh.clone());
         Some(shuttle::future::spawn(async move {
-            let te = eng3.clone().tracked().await;
-            let v = rig::query(&sh3, &te, root).await;
-            drop(te);
-            v
+            let fut = async move {
+                let te = eng3.clone().tracked().await;
+                let v = rig::query(&sh3, &te, root).await;
+                drop(te);
+                v
+            };
+            // an injected executor panic reaches whichever task ran the
+            // executor - possibly this one
+            futures::FutureExt::catch_unwind(std::panic::AssertUnwindSafe(fut)).await.ok()
         }))
     } else {
         None
@@ -260,13 +265,18 @@ async fn scenario_generic<C: Config>(
     out.pendings = *seen.lock().unwrap();
     out.accesses = ystore::access_count();
     ystore::arm_cancellation(0);
-    if let Some(v) = reader_value {
-        let want = r.eval(&prog, root);
-        if Some(v) != want {
-            fail(&mut out, format!("concurrent reader got {v}, from scratch {want:?}"));
+    let mut reader_panicked = false;
+    match reader_value {
+        Some(Some(v)) => {
+            let want = r.eval(&prog, root);
+            if Some(v) != want {
+                fail(&mut out, format!("concurrent reader got {v}, from scratch {want:?}"));
+            }
         }
-    } else if p.reader {
-        fail(&mut out, "concurrent reader did not complete".to_string());
+        Some(None) if matches!(spec, FaultSpec::Panic(_)) => reader_panicked = true,
+        Some(None) => fail(&mut out, "concurrent reader panicked".to_string()),
+        None if p.reader => fail(&mut out, "concurrent reader did not complete".to_string()),
+        None => {}
     }
 
     // executor activations of the victim (for the fault enumeration)
@@ -320,7 +330,7 @@ async fn scenario_generic<C: Config>(
                 .activations
                 .iter()
                 .any(|(k, run, reads)| *k == f.key && *run == f.on_run && *reads >= f.after_reads);
-            if happened && p.victim == Victim::Query {
+            if happened && p.victim == Victim::Query && !reader_panicked {
                 fail(
                     &mut out,
                     format!(
@@ -329,6 +339,13 @@ async fn scenario_generic<C: Config>(
                         f.key
                     ),
                 );
+            }
+            if p.victim == Victim::Query {
+                // the panic went elsewhere (or never happened): an ordinary answer
+                let want = r.eval(&prog, root);
+                if *v != want {
+                    fail(&mut out, format!("victim query = {v:?}, from scratch {want:?}"));
+                }
             }
             out.victim_completed = true;
         }
@@ -750,6 +767,8 @@ pub fn check() -> i32 {
                     "cancel_at": f.msg.split("cancel_at=").nth(1)
                         .and_then(|r| r.split(':').next())
                         .and_then(|n| n.parse::<usize>().ok()),
+                    "panic_at": f.msg.split("panic_at=").nth(1)
+                        .and_then(|r| r.split(':').next()),
                     "schedule": crate::report::sched_json(&f.schedule)}),
             });
         }
@@ -791,9 +810,14 @@ pub fn check() -> i32 {
 
 /// explore (victim cancelled at n) x (schedules with <= d deviations)
 pub fn s_scenario(p: P, n: usize) -> Arc<dyn Fn() + Send + Sync> {
+    s_scenario_spec(p, FaultSpec::CancelAt(n))
+}
+
+/// explore (fault) x (schedules with <= d deviations)
+pub fn s_scenario_spec(p: P, spec: FaultSpec) -> Arc<dyn Fn() + Send + Sync> {
     Arc::new(move || {
         let p = p.clone();
-        let o = shuttle::future::block_on(scenario(&p, FaultSpec::CancelAt(n)));
+        let o = shuttle::future::block_on(scenario(&p, spec));
         if let Some(m) = o.violation {
             xplore::report_violation(m);
         }
@@ -809,8 +833,36 @@ pub fn child_s(idx: usize) {
     let base = xplore::run_default(move || {
         shuttle::future::block_on(scenario(&p2, FaultSpec::None))
     });
-    let n_max = base.map(|o| o.pendings).unwrap_or(10) + 4;
+    let (pend, acts) = base.map(|o| (o.pendings, o.activations)).unwrap_or((10, Vec::new()));
+    let n_max = pend + 4;
     let mut total: Option<xplore::Outcome> = None;
+    // an executor panic while the other task is running / waiting: every
+    // activation of the uncancelled run, before its first read and after
+    // each read, under every schedule within the bound (a waiter that is
+    // never woken is a deadlock of the execution)
+    let mut panic_points = 0;
+    if p.reader && p.victim == Victim::Query {
+        for (k, run_no, reads) in &acts {
+            for after in 0..=*reads {
+                panic_points += 1;
+                let f = Fault { key: *k, on_run: *run_no, after_reads: after };
+                let mut cfg = xplore::Cfg::new(d);
+                cfg.max_failures = 20;
+                let mut o = xplore::explore_parallel(
+                    &cfg,
+                    crate::report::threads(),
+                    s_scenario_spec(p.clone(), FaultSpec::Panic(f)),
+                );
+                for fl in o.failures.iter_mut() {
+                    fl.msg = format!("panic_at={:?}/{}/{}: {}", f.key, f.on_run, f.after_reads, fl.msg);
+                }
+                match &mut total {
+                    None => total = Some(o),
+                    Some(t) => xplore::merge_into(t, o),
+                }
+            }
+        }
+    }
     for n in 1..=n_max {
         let mut cfg = xplore::Cfg::new(d);
         cfg.max_failures = 20;
@@ -829,6 +881,7 @@ pub fn child_s(idx: usize) {
     }
     let mut v = total.unwrap().to_json();
     v["cancel_points"] = json!(n_max);
+    v["panic_points"] = json!(panic_points);
     crate::report::emit_child_result(&v);
 }
 
@@ -845,9 +898,25 @@ pub fn replay(v: &Value) -> i32 {
     if v["check"] == "c05s" {
         let (p, _) = params_s(thorough)[v["scenario_index"].as_u64().unwrap() as usize].clone();
         let n = v["cancel_at"].as_u64().unwrap_or(1) as usize;
+        let spec = match v["panic_at"].as_str() {
+            Some(pa) => {
+                // "C(2)/1/0"
+                let mut it = pa.split('/');
+                let ks = it.next().unwrap_or("");
+                let num: u8 =
+                    ks.trim_end_matches(')').rsplit('(').next().and_then(|s| s.parse().ok()).unwrap_or(0);
+                let key = if ks.starts_with('X') { Key::X(num) } else { Key::C(num) };
+                FaultSpec::Panic(Fault {
+                    key,
+                    on_run: it.next().and_then(|s| s.parse().ok()).unwrap_or(1),
+                    after_reads: it.next().and_then(|s| s.parse().ok()).unwrap_or(0),
+                })
+            }
+            None => FaultSpec::CancelAt(n),
+        };
         let s = crate::report::sched_from_json(&v["schedule"]);
-        let o1 = xplore::replay(&s, s_scenario(p.clone(), n));
-        let o2 = xplore::replay(&s, s_scenario(p, n));
+        let o1 = xplore::replay(&s, s_scenario_spec(p.clone(), spec));
+        let o2 = xplore::replay(&s, s_scenario_spec(p, spec));
         let m1: Vec<_> = o1.failures.iter().map(|f| f.msg.clone()).collect();
         let m2: Vec<_> = o2.failures.iter().map(|f| f.msg.clone()).collect();
         if m1 != m2 {
